@@ -231,6 +231,8 @@ func (r *Transport) writeLoop() {
 						resCh := r.writeResCh[data.id]
 						r.writeResMu.RUnlock()
 						writeOrDone(r.ctx, writeRes{err: fmt.Errorf("reconnect cause[%v]: %w", err, reconnectErr)}, resCh)
+						// the redial budget is exhausted: fail pending and later Reads/Writes instead of letting them wait
+						r.cancel()
 						return
 					}
 					r.mu.Unlock()
@@ -272,6 +274,8 @@ func (r *Transport) readLoop() {
 				if reconnectErr := r.reconnect(tr); reconnectErr != nil {
 					r.mu.Unlock()
 					writeOrDone(r.ctx, &readRes{err: fmt.Errorf("reconnect cause[%v]: %w", err, reconnectErr)}, r.readResCh)
+					// the redial budget is exhausted: fail pending and later Reads/Writes instead of letting them wait
+					r.cancel()
 					return
 				}
 				r.mu.Unlock()
